@@ -3,7 +3,7 @@ from __future__ import annotations
 
 import ast
 
-from sa.astx import call_attr, call_name, dotted, src, statements, walk_local
+from sa.astx import call_attr, call_name, dotted, src
 from sa.domains import fmt_set, replace_chain
 from sa.selftest import Mutant, Silent
 from sa.source import AnalysisError
